@@ -588,6 +588,10 @@ def parse_units(s) :
     if s == "" :
         return Units(UnitsSystem(), UnitsDimensions())
 
+    for c in s :
+        if c.isspace() :
+            raise ValueError("unexpected whitespace in units string \""+s+"\".")
+
     def get_unit_type(unitstr) :
         for k in _units_labels_dict.keys() :
             if unitstr in _units_labels_dict[k] :
@@ -1304,6 +1308,8 @@ def parse_unitvalue(s="") :
         value = 0
         units = parse_units("")
     else :
+        if len(tok) > 2 :
+            raise ValueError("a unit value string must be a number and a units string separated by whitespace, \""+s+"\" has more parts.")
         value = float(tok[0])
         us = ""
         for i in range(1, len(tok)):
